@@ -93,12 +93,13 @@ type ScanCtx struct {
 
 // ScanCut is a chunker's decision for one response.
 type ScanCut struct {
-	Entries       int  // results in this response (0 = heartbeat); capped by what is left and by number_of_rows
-	CutLastAfter  int  // >0: return only this many cells of the last entry's row (a partial fragment) if it has more
-	NoMoreResults bool // claim more_results = false (end of the whole scan) although the region scanner may stay open
-	Exc           string
-	Heartbeat     bool // an empty response carries heartbeat_message = true (the server ran into its time limit)
-	EmptyFirst    bool // a response with results begins with a result of no cells, flagged partial (an empty fragment)
+	Entries              int  // results in this response (0 = heartbeat); capped by what is left and by number_of_rows
+	CutLastAfter         int  // >0: return only this many cells of the last entry's row (a partial fragment) if it has more
+	NoMoreResults        bool // claim more_results = false (end of the whole scan) although the region scanner may stay open
+	Exc                  string
+	Heartbeat            bool // an empty response carries heartbeat_message = true (the server ran into its time limit)
+	HeartbeatWithResults bool // ... and so does a response WITH results that is not the region's last
+	EmptyFirst           bool // a response with results begins with a result of no cells, flagged partial (an empty fragment)
 }
 
 func (c *Cluster) metaRowsLocked() []Row {
@@ -297,7 +298,8 @@ func (c *Cluster) serveScan(rs *RS, sc *ServerConn, req *Request, p *pb.ScanRequ
 	} else {
 		resp.MoreResults = proto.Bool(true)
 	}
-	if cut.Heartbeat && cut.Entries == 0 && more {
+	if cut.Heartbeat && (cut.Entries == 0 || cut.HeartbeatWithResults) && more {
+		// (the server ran into its time limit: it hands back what it has so far - possibly nothing - flagged as a heartbeat)
 		resp.HeartbeatMessage = proto.Bool(true)
 	}
 	closed := false
